@@ -1,6 +1,9 @@
 //! C14 (integer / determinism / rearrangement clauses): draws stay inside their range for adversarial raw outputs,
 //! every value of a small range is reachable, equal seeds give equal streams, shuffle permutes.
-//! input encoding: "<type>;<form>;<start>;<end>;<raw>"  |  "shuffle;<len>;<seed>"
+//! Float clause: start <= x < end for adversarial raws; serial clauses: small-range draws have no short period, every rearrangement of a
+//! short slice is reached with near-equal frequency over >= 10^5 seeds (statistical: bounded, 6-sigma tolerance).
+//! input encoding: "<type>;<form>;<start>;<end>;<raw>"  |  "shuffle;<len>;<seed>"  |  "f64;range;<start bits>;<end bits>;<raw>"
+//!                 |  "period;<range length>;<seed>"  |  "shufflefreq;<len>;<mode>"
 use crate::{guarded, Cex, Outcome};
 use rlib_rand::randomable::Randomable;
 use rlib_rand::{Rand, Rng};
@@ -82,10 +85,69 @@ fn shuffle_case(len: usize, seed: u64) -> Option<(String, String)> {
     }
 }
 
+fn float_case(s: f64, e: f64, raw: u64) -> Option<(String, String)> {
+    match guarded(|| (s..e).gen_from_u64(raw)) {
+        Ok(x) if s <= x && x < e => None,
+        r => Some((format!("f64 range start={:e} ({:#x}) end={:e} ({:#x}) raw={:#x} drew {:?}", s, s.to_bits(), e, e.to_bits(), raw, r), "start <= x < end".into())),
+    }
+}
+
+const PERIOD_DRAWS: usize = 512;
+const PERIOD_MAX: usize = 64;
+/// consecutive draws from 0..len started at `seed`: no period p <= 64 over 512 draws
+fn period_case(len: u32, seed: u64) -> Option<(String, String)> {
+    let d = match guarded(|| { let mut r = Rng::from_seed(seed); (0..PERIOD_DRAWS).map(|_| r.next(0..len)).collect::<Vec<u32>>() }) {
+        Ok(d) => d,
+        Err(e) => return Some((format!("draws from 0..{} (seed {}): {}", len, seed, e), "no panic".into())),
+    };
+    for p in 1..=PERIOD_MAX {
+        if (0..PERIOD_DRAWS - p).all(|i| d[i] == d[i + p]) {
+            return Some((format!("{} consecutive draws from 0..{} (seed {}) repeat with period {}: {:?} ...", PERIOD_DRAWS, len, seed, p, &d[..(2 * p + 2).min(24)]), "no period <= 64".into()));
+        }
+    }
+    None
+}
+
+const FREQ_SEEDS: u64 = 120_000;
+/// every rearrangement of 0..len is produced by some of 120 000 seeds, each with a frequency within 6 sigma of the uniform expectation
+fn shuffle_freq_case(len: usize, mode: u64) -> Option<(String, String)> {
+    let mut cnt: std::collections::BTreeMap<Vec<usize>, u64> = std::collections::BTreeMap::new();
+    for k in 0..FREQ_SEEDS {
+        let seed = match mode { 0 => k, 1 => k.wrapping_mul(0x9E3779B97F4A7C15), _ => k << 20 };
+        let mut r = Rng::from_seed(seed);
+        let mut a: Vec<usize> = (0..len).collect();
+        r.shuffle(&mut a);
+        *cnt.entry(a).or_insert(0) += 1;
+    }
+    let f: u64 = (1..=len as u64).product();
+    let exp = FREQ_SEEDS as f64 / f as f64;
+    let tol = 6.0 * exp.sqrt() + 1.0;
+    if (cnt.len() as u64) < f {
+        // name one rearrangement that no seed produced
+        let mut a: Vec<usize> = (0..len).collect();
+        let mut missing = None;
+        permute(&mut a, 0, &mut |p| { if missing.is_none() && !cnt.contains_key(p) { missing = Some(p.to_vec()); } });
+        return Some((format!("shuffle of 0..{}: only {} of {} rearrangements are produced by {} seeds (mode {}); e.g. {:?} never", len, cnt.len(), f, FREQ_SEEDS, mode, missing.unwrap_or_default()), "every rearrangement reached".into()));
+    }
+    for (p, c) in &cnt {
+        if (*c as f64 - exp).abs() > tol {
+            return Some((format!("shuffle of 0..{}: {:?} produced by {} of {} seeds (mode {}), expected {:.0} +- {:.0}", len, p, c, FREQ_SEEDS, mode, exp, tol), "near-equal frequency".into()));
+        }
+    }
+    None
+}
+fn permute(a: &mut Vec<usize>, k: usize, f: &mut dyn FnMut(&[usize])) {
+    if k == a.len() { f(a); return; }
+    for i in k..a.len() { a.swap(k, i); permute(a, k + 1, f); a.swap(k, i); }
+}
+
 pub fn run(seed: u64, replay: Option<String>) -> Outcome {
     if let Some(r) = replay {
         let p: Vec<&str> = r.split(';').collect();
-        let c = if p[0] == "shuffle" { shuffle_case(p[1].parse().unwrap_or(0), p[2].parse().unwrap_or(0)) }
+        let c = if p[0] == "f64" { float_case(f64::from_bits(p[2].parse().unwrap_or(0)), f64::from_bits(p[3].parse().unwrap_or(0)), p[4].parse().unwrap_or(0)) }
+                else if p[0] == "period" { period_case(p[1].parse().unwrap_or(4), p[2].parse().unwrap_or(0)) }
+                else if p[0] == "shufflefreq" { shuffle_freq_case(p[1].parse().unwrap_or(4), p[2].parse().unwrap_or(0)) }
+                else if p[0] == "shuffle" { shuffle_case(p[1].parse().unwrap_or(0), p[2].parse().unwrap_or(0)) }
                 else { dispatch(p[0], p[1], p[2].parse().unwrap_or(0), p[3].parse().unwrap_or(1), p[4].parse().unwrap_or(0)) };
         return Outcome { cex: c.map(|(o, e)| Cex { input: r.clone(), observed: o, expected: e }), cases: 1 };
     }
@@ -132,6 +194,39 @@ pub fn run(seed: u64, replay: Option<String>) -> Outcome {
                         return Outcome { cex: Some(Cex { input: format!("{};{};0;{};{}", t, form, e, raw), observed: o, expected: ex }), cases };
                     }
                 }
+            }
+        }
+    }
+    // ---- half-open float ranges: adversarial raws (top of the u64 range, around 2^53..2^64) x boundary ranges
+    let ulp2 = f64::from_bits(2.0f64.to_bits() - 1);
+    let franges: [(f64, f64); 14] = [(0.0, 1.0), (10.0, 15.0), (-10.0, 15.0), (-15.0, -10.0), (1.0, 1.0 + f64::EPSILON), (-ulp2, ulp2), (1.0, 2.0), (-f64::MAX, f64::MAX),
+        (0.0, f64::MAX), (0.0, f64::MIN_POSITIVE), (0.0, 5e-324), (1e300, f64::MAX), (-1e-300, 1e-300), (0.1, 0.3)];
+    let mut fraws: Vec<u64> = raws(0);
+    for k in 0..4200u64 { fraws.push(u64::MAX - k); }
+    for sh in 50..64 { fraws.push(1u64 << sh); fraws.push((1u64 << sh) + 1); fraws.push((1u64 << sh) - 1); }
+    for (s, e) in franges {
+        for &raw in &fraws {
+            cases += 1;
+            if let Some((o, ex)) = float_case(s, e, raw) {
+                return Outcome { cex: Some(Cex { input: format!("f64;range;{};{};{}", s.to_bits(), e.to_bits(), raw), observed: o, expected: ex }), cases };
+            }
+        }
+    }
+    // ---- serial structure of small-range draws
+    for sd in [42u64, 0, 1, 12345, seed, seed.wrapping_mul(0x9E3779B97F4A7C15)] {
+        for len in [2u32, 4, 8, 16, 3, 5, 6, 10, 256] {
+            cases += 1;
+            if let Some((o, ex)) = period_case(len, sd) {
+                return Outcome { cex: Some(Cex { input: format!("period;{};{}", len, sd), observed: o, expected: ex }), cases };
+            }
+        }
+    }
+    // ---- which rearrangements a shuffle can produce, and how often
+    for len in 2..=6usize {
+        for mode in 0..3u64 {
+            cases += FREQ_SEEDS;
+            if let Some((o, ex)) = shuffle_freq_case(len, mode) {
+                return Outcome { cex: Some(Cex { input: format!("shufflefreq;{};{}", len, mode), observed: o, expected: ex }), cases };
             }
         }
     }
